@@ -185,12 +185,24 @@ impl<'a> TyVisitor for V<'a> {
             let fix = |x: f64| if x.abs() < 1e-2 { if x < 0.0 { x - 0.5 } else { x + 0.5 } } else { x };
             (if needs_pow2_a { fix(case.ra) } else { case.ra }, if needs_pow2_b { fix(case.rb) } else { case.rb })
         };
-        let fa = make_flat::<T::F>(&lay, ra, &case.a, &case.pres_a, &case.zero);
-        let fb = make_flat::<T::F>(&lay, rb, &case.b, &case.pres_b, &[false]);
+        // the exact regime is only defined on the dyadic grid: snap whatever came in (identity for
+        // generated cases, makes the check total for fuzzed ones)
+        let snap = |v: &Vec<f64>| -> Vec<f64> { v.iter().map(|x| if case.grid { grid_snap(*x) } else { *x }).collect() };
+        let (ra, rb) = if case.grid { (if needs_pow2_a { ra } else { grid_snap(ra) }, if needs_pow2_b { rb } else { grid_snap(rb) }) } else { (ra, rb) };
+        let fa = make_flat::<T::F>(&lay, ra, &snap(&case.a), &case.pres_a, &case.zero);
+        let fb = make_flat::<T::F>(&lay, rb, &snap(&case.b), &case.pres_b, &[false]);
         self.st.class(&format!("type:{}", TYPES[case.ty].name));
         self.st.class(if case.grid { "regime:exact-grid" } else { "regime:rounding" });
         check_op::<T>(dims, case.op, &fa, &fb, case.grid, self.st, &lay)
     }
+}
+
+/// nearest point of the dyadic grid k * 2^-3, |value| <= 8
+fn grid_snap(x: f64) -> f64 {
+    if !x.is_finite() {
+        return 1.0;
+    }
+    ((x.clamp(-8.0, 8.0) * 8.0).round()) / 8.0
 }
 
 /// map an arbitrary grid value to +-2^k, k in -3..=3 (used when the value must be a power of two)
@@ -241,6 +253,9 @@ impl Property for C02 {
             if !(-6..=8).contains(&n) {
                 return Verdict::Trivial("malformed case");
             }
+        }
+        if !case.ra.is_finite() || !case.rb.is_finite() || case.a.iter().chain(&case.b).any(|x| !x.is_finite() || x.abs() > 1e3) || case.ra.abs() > 1e3 || case.rb.abs() > 1e3 {
+            return Verdict::Trivial("malformed case");
         }
         let dims = [case.dims.0 as usize, case.dims.1 as usize];
         dispatch(case.ty, &dims, V { case, st })
